@@ -596,3 +596,52 @@ func H_C01_literals() {
 	sameRows(got, want, "filter")
 	verif.Reach("end")
 }
+
+// H_C01_literal_kinds: a numeric literal and a string literal spelled alike
+// in one predicate keep their kinds: the number compares numerically, the
+// string byte-wise with the column's text - in either order, on every row.
+func H_C01_literal_kinds() {
+	spell := []string{"1.50", "1.0", "007", "1e3", "10", "0.5"}
+	vals := []float64{1.5, 1, 7, 1000, 10, 0.5}
+	li := verif.Choose("spelling", len(spell))
+	form := verif.Choose("form", 4)
+	n := verif.Choose("rows", maxRows(2, 3)+1)
+	lit, v := spell[li], vals[li]
+	rows := make([]Map, n)
+	arr := make([]any, n)
+	for i := range rows {
+		x := verif.F64("price")
+		verif.Assume(x == x)
+		sku := lit
+		if verif.Choose("sku", 2) == 1 {
+			sku = "other"
+		}
+		rows[i] = Map{"id": float64(i), "price": x, "sku": sku}
+		arr[i] = rows[i]
+	}
+	var sql string
+	switch form {
+	case 0:
+		sql = "SELECT * FROM t WHERE price >= " + lit + " AND sku = '" + lit + "'"
+	case 1:
+		sql = "SELECT * FROM t WHERE sku = '" + lit + "' AND price >= " + lit
+	case 2:
+		sql = "SELECT * FROM t WHERE NOT (sku != '" + lit + "' OR price < " + lit + ")"
+	case 3:
+		sql = "SELECT * FROM t WHERE sku IN ('" + lit + "') AND price BETWEEN " + lit + " AND 1e300"
+	}
+	got, ok := runQuery(Map{"t": arr}, sql)
+	if !ok {
+		return
+	}
+	var want []Map
+	for _, r := range rows {
+		x := f64of(r["price"])
+		upper := form != 3 || x <= 1e300
+		if r["sku"] == lit && x >= v && upper {
+			want = append(want, r)
+		}
+	}
+	sameRows(got, want, "filter")
+	verif.Reach("end")
+}
